@@ -7,18 +7,20 @@ import GoldModel.Drive.ExSpec
 `Kind:value:sl:sc:el:ec`, `ex` = the prefix form of `exspec`):
 
     prog   := decl*
-    decl   := DP t mname params mods body | DF t mname params t t mods body | DC t t t t opt | DV opt t t t { t* } abs
+    decl   := DP t mname params mods body | DF t mname params t t mods body | DC t t t t opt | DV opt t t ty { t* } abs | DT t t t ty
              | DK - t t | DK + t t t t t | DM t t | DU t t commas
     mname  := N t | V t t t
     mods   := { (M t | X t t)* }
     body   := - | + stmts t
     params := - | E t t | L t param (, t param)* . t
-    param  := M t t t t | N t t t
+    param  := M t t t ty | N t t ty
+    ty     := YB t | YS t t t t | YR t t abs | YG t t t | YE t t t | YP t t | YA t idx (- | + idx) t t | YI t t
+    idx    := IB t t t | IR t t t t t
     stmts  := [ stmt* ]
     opt    := - | + t
     abs    := - | + t t
     commas := (, t t)* .
-    stmt   := SA ex t ex | SE ex | SR t ex | SC t | SV t t t t abs | SS t t commas | SK t t t t opt | SI t ex stmts tail
+    stmt   := SA ex t ex | SE ex | SR t ex | SC t | SV t t t ty abs | ST t t t ty | SS t t commas | SK t t t t opt | SI t ex stmts tail
             | SW t ex stmts t | SL t stmts t | SF t t t ex t ex step stmts t | SX t ex stmts t | SU t stmts t ex
     tail   := TE t | TL t stmts t | TF t ex stmts tail
     step   := - | + t ex
@@ -36,12 +38,62 @@ def tok : P Tok
 
 def ex : P Ex := fun ws => ExSpecMode.parseEx (ws.length + 1) ws
 
+def abs : P (Option (Tok × Tok))
+  | "-" :: ws => some (none, ws)
+  | "+" :: ws => do
+    let (a, ws) ← tok ws; let (x, ws) ← tok ws
+    pure (some (a, x), ws)
+  | _ => none
+
+def idx : P Idx
+  | "IB" :: ws => do
+    let (l, ws) ← tok ws; let (t, ws) ← tok ws; let (r, ws) ← tok ws
+    pure (⟨l, .basic t, r⟩, ws)
+  | "IR" :: ws => do
+    let (l, ws) ← tok ws; let (a, ws) ← tok ws; let (b, ws) ← tok ws; let (c, ws) ← tok ws; let (r, ws) ← tok ws
+    pure (⟨l, .range a b c, r⟩, ws)
+  | _ => none
+
+def ty : P Ty
+  | "YB" :: ws => do
+    let (t, ws) ← tok ws
+    pure (.basic t, ws)
+  | "YS" :: ws => do
+    let (t, ws) ← tok ws; let (l, ws) ← tok ws; let (n, ws) ← tok ws; let (r, ws) ← tok ws
+    pure (.sized t l n r, ws)
+  | "YR" :: ws => do
+    let (r, ws) ← tok ws; let (t, ws) ← tok ws; let (i, ws) ← abs ws
+    pure (.ref r t i, ws)
+  | "YG" :: ws => do
+    let (a, ws) ← tok ws; let (b, ws) ← tok ws; let (c, ws) ← tok ws
+    pure (.range a b c, ws)
+  | "YE" :: ws => do
+    let (a, ws) ← tok ws; let (b, ws) ← tok ws; let (c, ws) ← tok ws
+    pure (.set a b c, ws)
+  | "YP" :: ws => do
+    let (a, ws) ← tok ws; let (b, ws) ← tok ws
+    pure (.pointer a b, ws)
+  | "YA" :: ws => do
+    let (a, ws) ← tok ws; let (i, ws) ← idx ws
+    match ws with
+    | "-" :: ws => do
+      let (o, ws) ← tok ws; let (t, ws) ← tok ws
+      pure (.array a i none o t, ws)
+    | "+" :: ws => do
+      let (j, ws) ← idx ws; let (o, ws) ← tok ws; let (t, ws) ← tok ws
+      pure (.array a i (some j) o t, ws)
+    | _ => none
+  | "YI" :: ws => do
+    let (a, ws) ← tok ws; let (b, ws) ← tok ws
+    pure (.instOf a b, ws)
+  | _ => none
+
 def param : P Param
   | "M" :: ws => do
-    let (m, ws) ← tok ws; let (n, ws) ← tok ws; let (c, ws) ← tok ws; let (t, ws) ← tok ws
+    let (m, ws) ← tok ws; let (n, ws) ← tok ws; let (c, ws) ← tok ws; let (t, ws) ← ty ws
     pure (⟨some m, n, c, t⟩, ws)
   | "N" :: ws => do
-    let (n, ws) ← tok ws; let (c, ws) ← tok ws; let (t, ws) ← tok ws
+    let (n, ws) ← tok ws; let (c, ws) ← tok ws; let (t, ws) ← ty ws
     pure (⟨none, n, c, t⟩, ws)
   | _ => none
 
@@ -67,13 +119,6 @@ def optTok : P (Option Tok)
   | "+" :: ws => do
     let (t, ws) ← tok ws
     pure (some t, ws)
-  | _ => none
-
-def abs : P (Option (Tok × Tok))
-  | "-" :: ws => some (none, ws)
-  | "+" :: ws => do
-    let (a, ws) ← tok ws; let (x, ws) ← tok ws
-    pure (some (a, x), ws)
   | _ => none
 
 partial def commas : P (List (Tok × Tok))
@@ -111,8 +156,11 @@ partial def stmt : P (Stmt Ex)
     let (k, ws) ← tok ws
     pure (.ctl k, ws)
   | "SV" :: ws => do
-    let (k, ws) ← tok ws; let (n, ws) ← tok ws; let (c, ws) ← tok ws; let (t, ws) ← tok ws; let (a, ws) ← abs ws
+    let (k, ws) ← tok ws; let (n, ws) ← tok ws; let (c, ws) ← tok ws; let (t, ws) ← ty ws; let (a, ws) ← abs ws
     pure (.lvar k n c t a, ws)
+  | "ST" :: ws => do
+    let (k, ws) ← tok ws; let (n, ws) ← tok ws; let (c, ws) ← tok ws; let (t, ws) ← ty ws
+    pure (.typeS k n c t, ws)
   | "SS" :: ws => do
     let (k, ws) ← tok ws; let (f, ws) ← tok ws; let (r, ws) ← commas ws
     pure (.usesS k f r, ws)
@@ -202,12 +250,15 @@ def decl : P (Decl Ex)
     let (k, ws) ← tok ws; let (n, ws) ← tok ws; let (q, ws) ← tok ws; let (l, ws) ← tok ws; let (m, ws) ← optTok ws
     pure (.const k n q l m, ws)
   | "DV" :: ws => do
-    let (m, ws) ← optTok ws; let (n, ws) ← tok ws; let (c, ws) ← tok ws; let (t, ws) ← tok ws
+    let (m, ws) ← optTok ws; let (n, ws) ← tok ws; let (c, ws) ← tok ws; let (t, ws) ← ty ws
     match ws with
     | "{" :: ws => do
       let (ms, ws) ← tokList ws; let (a, ws) ← abs ws
       pure (.field m n c t ms a, ws)
     | _ => none
+  | "DT" :: ws => do
+    let (k, ws) ← tok ws; let (n, ws) ← tok ws; let (c, ws) ← tok ws; let (t, ws) ← ty ws
+    pure (.typeD k n c t, ws)
   | "DM" :: ws => do
     let (k, ws) ← tok ws; let (n, ws) ← tok ws
     pure (.module k n, ws)
